@@ -239,6 +239,130 @@ fn judge_cli(c: &TdCase, cls: &mut Classifier) -> Verdict {
     Ok(())
 }
 
+/// A document, then relatives of it - the same types with a freshly generated message, the same types and
+/// message under another domain, the same struct NAMES with the members of one struct reversed or one member
+/// renamed (another encodeType under an old name) - and the first one again, hashed one after the other on one
+/// thread, each against its own reference: nothing computed for one document may leak into the next.
+#[derive(Clone, Debug, Serialize, Deserialize)]
+pub struct HistCase {
+    pub steps: Vec<TdCase>,
+    pub changes: Vec<String>,
+}
+
+fn gen_history(tape: Vec<u8>) -> HistCase {
+    use crate::gen::td::{gen_domain, render_doc, ValGen};
+    use crate::refimpl::eip712::{Ty, Val};
+    let mut u = U::new(&tape);
+    let first = td::gen_model(&mut u, 3, 60);
+    let render = |m: &TdModel, u: &mut U| {
+        let style = u.u64();
+        TdCase { doc: render_doc(m, u).render_styled(style), model: m.clone() }
+    };
+    let mut steps = vec![render(&first, &mut u)];
+    let mut changes = vec!["original".to_string()];
+    for _ in 0..2 + u.below(3) {
+        let mut m = first.clone();
+        let what = match u.below(4) {
+            0 if m.primary != "EIP712Domain" => {
+                let g = m.graph.clone();
+                let mut vg = ValGen { graph: &g, nodes: 0, node_limit: 60 };
+                m.message = vg.val(&mut u, &Ty::Struct(m.primary.clone()), 3);
+                "same-types-fresh-message"
+            }
+            1 if m.primary != "EIP712Domain" => {
+                let (ddef, dval) = gen_domain(&mut u);
+                m.graph.structs.retain(|s| s.name != "EIP712Domain");
+                m.graph.structs.push(ddef);
+                m.domain = dval;
+                "other-domain"
+            }
+            2 => {
+                // members of one struct reversed: same names, another encodeType (values are looked up by name)
+                let cands: Vec<usize> = (0..m.graph.structs.len()).filter(|i| m.graph.structs[*i].name != "EIP712Domain" && m.graph.structs[*i].members.len() >= 2).collect();
+                if cands.is_empty() {
+                    continue;
+                }
+                let i = cands[u.below(cands.len())];
+                m.graph.structs[i].members.reverse();
+                "members-reversed"
+            }
+            _ => {
+                // one member renamed, in the declaration and in every value of that struct
+                let cands: Vec<usize> = (0..m.graph.structs.len()).filter(|i| m.graph.structs[*i].name != "EIP712Domain" && !m.graph.structs[*i].members.is_empty()).collect();
+                if cands.is_empty() {
+                    continue;
+                }
+                let i = cands[u.below(cands.len())];
+                let sname = m.graph.structs[i].name.clone();
+                let k = u.below(m.graph.structs[i].members.len());
+                let old = m.graph.structs[i].members[k].0.clone();
+                let new = format!("{old}_r");
+                if m.graph.structs[i].members.iter().any(|(n, _)| *n == new) {
+                    continue;
+                }
+                m.graph.structs[i].members[k].0 = new.clone();
+                fn rename(g: &crate::refimpl::eip712::TypeGraph, ty: &Ty, v: &mut Val, sname: &str, old: &str, new: &str) {
+                    match (ty, v) {
+                        (Ty::Struct(n), Val::Struct(fields)) => {
+                            // walk with the NEW graph: member types are looked up by the (possibly new) name
+                            if n == sname {
+                                for (fname, _) in fields.iter_mut() {
+                                    if fname == old {
+                                        *fname = new.to_string();
+                                    }
+                                }
+                            }
+                            if let Some(def) = g.get(n) {
+                                for (fname, fv) in fields.iter_mut() {
+                                    if let Some((_, mt)) = def.members.iter().find(|(mn, _)| mn == fname) {
+                                        rename(g, mt, fv, sname, old, new);
+                                    }
+                                }
+                            }
+                        }
+                        (Ty::Array(e, _), Val::Array(items)) => {
+                            for it in items.iter_mut() {
+                                rename(g, e, it, sname, old, new);
+                            }
+                        }
+                        _ => {}
+                    }
+                }
+                let g = m.graph.clone();
+                let primary = m.primary.clone();
+                rename(&g, &Ty::Struct(primary), &mut m.message, &sname, &old, &new);
+                "member-renamed"
+            }
+        };
+        if td::expected(&m).is_none() {
+            continue; // the relative does not conform to its own types (cannot happen by construction; skipped if it does)
+        }
+        steps.push(render(&m, &mut u));
+        changes.push(what.to_string());
+    }
+    steps.push(render(&first, &mut u));
+    changes.push("original again".into());
+    HistCase { steps, changes }
+}
+
+fn judge_history(c: &HistCase, cls: &mut Classifier) -> Verdict {
+    let mut scratch = Classifier::default();
+    for (i, s) in c.steps.iter().enumerate() {
+        judge(s, &mut scratch).map_err(|mut e| {
+            e.note = format!("step {i} ({}) of the history {:?}, hashed one after the other on one thread: {}", c.changes.get(i).map(String::as_str).unwrap_or("?"), c.changes, e.note);
+            e
+        })?;
+    }
+    for ch in &c.changes {
+        cls.label(&format!("history/{ch}"));
+    }
+    if c.steps.len() >= 3 {
+        cls.label("history");
+        cls.nontrivial(&c.steps.iter().map(|s| s.doc.as_str()).collect::<Vec<_>>());
+    }
+    Ok(())
+}
+
 pub fn gen_case(tape: Vec<u8>) -> TdCase {
     td::gen_case(&mut U::new(&tape))
 }
@@ -277,7 +401,7 @@ fn judge_type_string(c: &TypeString, cls: &mut Classifier) -> Verdict {
 }
 
 pub fn run(ctx: &mut Ctx) {
-    ctx.rule = "a type graph (1..6 structs, names chosen to stress ordering and the type grammar, 0..6 members - one graph in eight has a wide struct of 7..65 members with the counts 15/16/17, 31/32/33, 63/64/65 over-represented -, member types atomic | struct reference | array up to 3 dimensions fixed 0..3 or dynamic; cycles only through dynamic/empty arrays; shared, repeated, diamond, self- and mutually-recursive references) and a conforming value tree generated together from a byte tape; integers at range boundaries in every accepted spelling; one of the 31 well-formed domains; any struct (occasionally EIP712Domain) as primaryType; JSON keys shuffled. Oracle: EIP-712 reference computed from the AST (dependency set = reachable minus primary, name order, once each); domain separator, message hash and signing digest must match; with the hook, encodeType of every struct must equal the reference string and the parse/print image of {100 atoms} x {suffix lists up to length 3 over [],[0],[1],[2],[10]} must be the identity (15600 strings, exhaustive). CLI sample: the same generator through `hdwallet hash typeddata` (file/stdin), `--message-hash`/`-m` and (one in five) `sign typeddata` must print the reference digest / message hash / RFC 6979 signature of the reference key. Non-trivial: primary type reaches another struct or contains an array; distinct by document.".into();
+    ctx.rule = "a type graph (1..6 structs, names chosen to stress ordering and the type grammar, 0..6 members - one graph in eight has a wide struct of 7..65 members with the counts 15/16/17, 31/32/33, 63/64/65 over-represented -, member types atomic | struct reference | array up to 3 dimensions fixed 0..3 or dynamic; cycles only through dynamic/empty arrays; shared, repeated, diamond, self- and mutually-recursive references) and a conforming value tree generated together from a byte tape; integers at range boundaries in every accepted spelling; one of the 31 well-formed domains; any struct (occasionally EIP712Domain) as primaryType; JSON keys shuffled. Oracle: EIP-712 reference computed from the AST (dependency set = reachable minus primary, name order, once each); domain separator, message hash and signing digest must match; with the hook, encodeType of every struct must equal the reference string and the parse/print image of {100 atoms} x {suffix lists up to length 3 over [],[0],[1],[2],[10]} must be the identity (15600 strings, exhaustive). Histories: a document, 2-4 relatives (same types with a fresh message, another domain, the members of one struct reversed, one member renamed - old struct names with new definitions) and the first one again, hashed one after the other on one thread. CLI sample: the same generator through `hdwallet hash typeddata` (file/stdin), `--message-hash`/`-m` and (one in five) `sign typeddata` must print the reference digest / message hash / RFC 6979 signature of the reference key. Non-trivial: primary type reaches another struct or contains an array; distinct by document.".into();
     ctx.assumptions = vec!["sha3 Keccak".into(), "struct and member names are ASCII identifiers (sort orders agree)".into()];
     ctx.replay_known_and_regressions(&replay);
     let n = ctx.tier.pick(60_000, 1_000_000);
@@ -317,6 +441,11 @@ pub fn run(ctx: &mut Ctx) {
         strings.push(TypeString { s: s.to_string() });
     }
     ctx.run_cases("type-strings", &strings, judge_type_string);
+    let nh = ctx.tier.pick(6000, 100_000);
+    ctx.run_prop("history", nh, || crate::gen::tape(2500).prop_map(gen_history), judge_history);
+    for ch in ["same-types-fresh-message", "other-domain", "members-reversed", "member-renamed"] {
+        ctx.floor(&format!("history/{ch}"), nh as u64, 0.1);
+    }
     if crate::cli::global_cli().is_some() {
         ctx.shrink_iters = 150;
         ctx.run_prop("cli", ctx.tier.pick(600, 20_000), || crate::gen::tape(1500).prop_map(gen_case), judge_cli);
@@ -348,6 +477,7 @@ pub fn replay(sub: &str, case: &Value) -> Option<Verdict> {
         "digest" => Some(replay_as::<TdCase>(case, judge)),
         "type-strings" => Some(replay_as::<TypeString>(case, judge_type_string)),
         "cli" => Some(replay_as::<TdCase>(case, judge_cli)),
+        "history" => Some(replay_as::<HistCase>(case, judge_history)),
         _ => None,
     }
 }
